@@ -151,6 +151,7 @@ func DumpBCE(c *Ctx) {
 // bceRow is one accepted unproven bounds check: why it cannot fail, and the
 // guard (if any) the engine re-verifies on every path to it.
 type bceRow struct {
+	pkg            string // "" = mqtt
 	fn, kind, expr string
 	reason         string
 	guard          func(c *Ctx, cms []cmp) bool
@@ -171,42 +172,45 @@ func lenOfLocal(v ssa.Value, typ string) bool {
 }
 
 var bceTable = []bceRow{
-	{"writeTo", "IsSliceInBounds", "p[n:]", "n is the count returned by conn.Write(p): 0 ≤ n ≤ len(p) by the io.Writer contract (trusted)", nil},
-	{"(*Client).resend", "IsInBounds", "packet[0]", "the loaded record is non-nil (tested) and every record saved under an outbound key is a PUBLISH or PUBREL of at least 4 bytes (OWN-4 lists the Save sites, COD-8 the integrity check)",
+	{pkg: "mqtttest", fn: "NewPublishMock", kind: "IsInBounds", expr: "want[i]", reason: "behind i >= uint64(len(want)) ⇒ return; only unproven with a 32-bit int (GOARCH=386); MCK-2 re-verifies the guard on every path"},
+	{pkg: "mqtttest", fn: "NewReadSlicesMock", kind: "IsInBounds", expr: "want[i]", reason: "behind i >= uint64(len(want)) ⇒ return; only unproven with a 32-bit int; MCK-2 re-verifies the guard"},
+	{pkg: "mqtttest", fn: "newSubscribeMock", kind: "IsInBounds", expr: "want[i]", reason: "behind i >= uint64(len(want)) ⇒ return; only unproven with a 32-bit int; MCK-2 re-verifies the guard"},
+	{fn: "writeTo", kind: "IsSliceInBounds", expr: "p[n:]", reason: "n is the count returned by conn.Write(p): 0 ≤ n ≤ len(p) by the io.Writer contract (trusted)"},
+	{"", "(*Client).resend", "IsInBounds", "packet[0]", "the loaded record is non-nil (tested) and every record saved under an outbound key is a PUBLISH or PUBREL of at least 4 bytes (OWN-4 lists the Save sites, COD-8 the integrity check)",
 		func(c *Ctx, cms []cmp) bool { return true }},
-	{"(*Client).handshake", "IsInBounds", "packet[3]", "behind err == nil of Peek(4): bufio returns 4 bytes with a nil error",
+	{"", "(*Client).handshake", "IsInBounds", "packet[3]", "behind err == nil of Peek(4): bufio returns 4 bytes with a nil error",
 		nil},
-	{"(*Client).readSlices", "IsSliceInBounds", "c.pendingAck[2:4]", "pendingAck is non-empty (tested) and only ever filled with 4-byte literals (checked: every append to it has four elements)",
+	{"", "(*Client).readSlices", "IsSliceInBounds", "c.pendingAck[2:4]", "pendingAck is non-empty (tested) and only ever filled with 4-byte literals (checked: every append to it has four elements)",
 		func(c *Ctx, cms []cmp) bool {
 			return hasCmp(cms, func(k cmp) bool { return lenOf(k.X, "Client.pendingAck") && k.Op == token.NEQ && isK(k.Y, 0) })
 		}},
-	{"(*Client).onPUBLISH", "IsSliceInBounds", "c.peek[2:i]", "behind i ≤ len(c.peek); i = 2 + uint16 ≥ 2",
+	{"", "(*Client).onPUBLISH", "IsSliceInBounds", "c.peek[2:i]", "behind i ≤ len(c.peek); i = 2 + uint16 ≥ 2",
 		func(c *Ctx, cms []cmp) bool {
 			return hasCmp(cms, func(k cmp) bool { return lenOf(k.Y, "Client.peek") && k.Op == token.LEQ })
 		}},
-	{"(*Client).onPUBLISH", "IsInBounds", "binary.BigEndian.Uint16(c.peek[i:])", "behind len(c.peek) ≥ i+2",
+	{"", "(*Client).onPUBLISH", "IsInBounds", "binary.BigEndian.Uint16(c.peek[i:])", "behind len(c.peek) ≥ i+2",
 		func(c *Ctx, cms []cmp) bool {
 			return hasCmp(cms, func(k cmp) bool { return lenOf(k.X, "Client.peek") && k.Op == token.GEQ && !isK(k.Y, 2) })
 		}},
-	{"(*Client).onPUBLISH", "IsInBounds", "uint(binary.BigEndian.Uint16(c.peek[i:]))", "behind len(c.peek) ≥ i+2",
+	{"", "(*Client).onPUBLISH", "IsInBounds", "uint(binary.BigEndian.Uint16(c.peek[i:]))", "behind len(c.peek) ≥ i+2",
 		func(c *Ctx, cms []cmp) bool {
 			return hasCmp(cms, func(k cmp) bool { return lenOf(k.X, "Client.peek") && k.Op == token.GEQ && !isK(k.Y, 2) })
 		}},
-	{"(*Client).onPUBLISH", "IsSliceInBounds", "c.peek[i:]", "i ≤ len(c.peek) from the topic test, respectively i+2 ≤ len(c.peek) before i += 2",
+	{"", "(*Client).onPUBLISH", "IsSliceInBounds", "c.peek[i:]", "i ≤ len(c.peek) from the topic test, respectively i+2 ≤ len(c.peek) before i += 2",
 		func(c *Ctx, cms []cmp) bool {
 			return hasCmp(cms, func(k cmp) bool { return lenOf(k.Y, "Client.peek") && k.Op == token.LEQ })
 		}},
-	{"(*volatile).Save", "IsSliceInBounds", "bytes[i:]", "i is the sum of the lengths copied so far and bytes was made with the sum of all lengths", nil},
-	{"(*Client).applySeqNoAndEnqueue", "IsInBounds", "packet[0]", "submitPersisted is only called with the two-element net.Buffers of publishPacket (checked: every call site)", nil},
-	{"(*Client).applySeqNoAndEnqueue", "IsSliceInBounds", "buf[i:]", "buf is the header built by publishPacket with a packet identifier: it ends in the two identifier bytes, so len(buf)-2 ≥ 0", nil},
-	{"AdoptSession", "IsInBounds", "packet[0]", "the decoded packet of an outbound or marker key: every Save site stores at least one packet byte; the only possibly empty record (client identifier) is skipped before", nil},
-	{"AdoptSession", "IsInBounds", "publishAtLeastOnceKeys[i]", "sort.Slice calls less with 0 ≤ i,j < len (trusted)", nil},
-	{"AdoptSession", "IsInBounds", "publishAtLeastOnceKeys[j]", "sort.Slice contract", nil},
-	{"AdoptSession", "IsInBounds", "publishExactlyOnceKeys[i]", "sort.Slice contract", nil},
-	{"AdoptSession", "IsInBounds", "publishExactlyOnceKeys[j]", "sort.Slice contract", nil},
-	{"AdoptSession", "IsInBounds", "publishReleaseKeys[i]", "sort.Slice contract", nil},
-	{"AdoptSession", "IsInBounds", "publishReleaseKeys[j]", "sort.Slice contract", nil},
-	{"AdoptSession", "IsInBounds", "publishReleaseKeys[0]", "inside len(publishExactlyOnceKeys) != 0 && len(publishReleaseKeys) != 0",
+	{"", "(*volatile).Save", "IsSliceInBounds", "bytes[i:]", "i is the sum of the lengths copied so far and bytes was made with the sum of all lengths", nil},
+	{"", "(*Client).applySeqNoAndEnqueue", "IsInBounds", "packet[0]", "submitPersisted is only called with the two-element net.Buffers of publishPacket (checked: every call site)", nil},
+	{"", "(*Client).applySeqNoAndEnqueue", "IsSliceInBounds", "buf[i:]", "buf is the header built by publishPacket with a packet identifier: it ends in the two identifier bytes, so len(buf)-2 ≥ 0", nil},
+	{"", "AdoptSession", "IsInBounds", "packet[0]", "the decoded packet of an outbound or marker key: every Save site stores at least one packet byte; the only possibly empty record (client identifier) is skipped before", nil},
+	{"", "AdoptSession", "IsInBounds", "publishAtLeastOnceKeys[i]", "sort.Slice calls less with 0 ≤ i,j < len (trusted)", nil},
+	{"", "AdoptSession", "IsInBounds", "publishAtLeastOnceKeys[j]", "sort.Slice contract", nil},
+	{"", "AdoptSession", "IsInBounds", "publishExactlyOnceKeys[i]", "sort.Slice contract", nil},
+	{"", "AdoptSession", "IsInBounds", "publishExactlyOnceKeys[j]", "sort.Slice contract", nil},
+	{"", "AdoptSession", "IsInBounds", "publishReleaseKeys[i]", "sort.Slice contract", nil},
+	{"", "AdoptSession", "IsInBounds", "publishReleaseKeys[j]", "sort.Slice contract", nil},
+	{"", "AdoptSession", "IsInBounds", "publishReleaseKeys[0]", "inside len(publishExactlyOnceKeys) != 0 && len(publishReleaseKeys) != 0",
 		func(c *Ctx, cms []cmp) bool {
 			n := 0
 			for _, cm := range cms {
@@ -216,27 +220,27 @@ var bceTable = []bceRow{
 			}
 			return n >= 2
 		}},
-	{"AdoptSession", "IsInBounds", "publishReleaseKeys[len(publishReleaseKeys) - 1]", "inside len(publishReleaseKeys) != 0",
+	{"", "AdoptSession", "IsInBounds", "publishReleaseKeys[len(publishReleaseKeys) - 1]", "inside len(publishReleaseKeys) != 0",
 		func(c *Ctx, cms []cmp) bool {
 			return hasCmp(cms, func(k cmp) bool { return lenOfLocal(k.X, "[]uint") && k.Op == token.NEQ && isK(k.Y, 0) })
 		}},
-	{"AdoptSession", "IsInBounds", "publishExactlyOnceKeys[0]", "inside len(publishExactlyOnceKeys) != 0",
+	{"", "AdoptSession", "IsInBounds", "publishExactlyOnceKeys[0]", "inside len(publishExactlyOnceKeys) != 0",
 		func(c *Ctx, cms []cmp) bool {
 			return hasCmp(cms, func(k cmp) bool { return lenOfLocal(k.X, "[]uint") && k.Op == token.NEQ && isK(k.Y, 0) })
 		}},
-	{"AdoptSession", "IsInBounds", "publishKeys[0]", "len(releaseKeys) == 0 inside (len(publishKeys) != 0 || len(releaseKeys) != 0) implies len(publishKeys) != 0",
+	{"", "AdoptSession", "IsInBounds", "publishKeys[0]", "len(releaseKeys) == 0 inside (len(publishKeys) != 0 || len(releaseKeys) != 0) implies len(publishKeys) != 0",
 		func(c *Ctx, cms []cmp) bool {
 			return hasCmp(cms, func(k cmp) bool { return lenOfLocal(k.X, "[]uint") && k.Op == token.NEQ && isK(k.Y, 0) })
 		}},
-	{"AdoptSession", "IsInBounds", "releaseKeys[len(releaseKeys) - 1]", "len(publishKeys) == 0 inside (len(publishKeys) != 0 || len(releaseKeys) != 0) implies len(releaseKeys) != 0",
+	{"", "AdoptSession", "IsInBounds", "releaseKeys[len(releaseKeys) - 1]", "len(publishKeys) == 0 inside (len(publishKeys) != 0 || len(releaseKeys) != 0) implies len(releaseKeys) != 0",
 		func(c *Ctx, cms []cmp) bool {
 			return hasCmp(cms, func(k cmp) bool { return lenOfLocal(k.X, "[]uint") && k.Op == token.NEQ && isK(k.Y, 0) })
 		}},
-	{"cleanSequence", "IsInBounds", "keys[i]", "loop condition i < len(keys)",
+	{"", "cleanSequence", "IsInBounds", "keys[i]", "loop condition i < len(keys)",
 		func(c *Ctx, cms []cmp) bool {
 			return hasCmp(cms, func(k cmp) bool { return lenOfLocal(k.Y, "[]uint") && k.Op == token.LSS })
 		}},
-	{"cleanSequence", "IsInBounds", "keys[i - 1]", "i starts at 1 and only grows; i < len(keys)",
+	{"", "cleanSequence", "IsInBounds", "keys[i - 1]", "i starts at 1 and only grows; i < len(keys)",
 		func(c *Ctx, cms []cmp) bool {
 			return hasCmp(cms, func(k cmp) bool { return lenOfLocal(k.Y, "[]uint") && k.Op == token.LSS })
 		}},
@@ -266,7 +270,11 @@ func (c *Ctx) pan1() {
 				var row *bceRow
 				for i := range bceTable {
 					r := &bceTable[i]
-					if pkgName == "mqtt" && r.fn == s.Func && r.kind == s.Kind && r.expr == s.Expr {
+					rp := r.pkg
+					if rp == "" {
+						rp = "mqtt"
+					}
+					if pkgName == rp && r.fn == s.Func && r.kind == s.Kind && r.expr == s.Expr {
 						row = r
 					}
 				}
